@@ -2,7 +2,7 @@
 import json, os, random
 from . import common, gen, oracles
 from .gen import wchoice
-from . import fals_basic, fals_models
+from . import fals_basic, fals_models, fals_analyses
 
 PROPS = {}
 
@@ -81,6 +81,34 @@ register(
     streams=["demand"],
     falsifier=fals_models.falsify_C16,
     explanation="all clauses proved by structural induction over nested request bounds (RBF, Aggregate/Slice); sum of n largest via a verified insertion sort and a sublist-maximality lemma.",
+)
+
+
+register(
+    "C06",
+    level="proof",
+    streams=["fp", "edf", "fifo", "steps", "demand", "fixed_point"],
+    falsifier=fals_analyses.falsify_C06,
+    partial=["hypotheses: arrival models outside the C11 findings (F2/F3/K1), limit >= 1 (K4), the task under analysis releases something (degenerate finding K5: for a never-arriving task the analyses return Ok(0), naive all-offset evaluation returns the interfering busy window; never_arriving_counterexample)"],
+    explanation="for each of the nine analyses: model result = naive evaluation (linear-scan least solutions, every offset in [0,L), maximum, error iff some least solution is missing) proved via C08 (search = least solution), C11 (steps = increase points) and a domination argument (between consecutive search points the right-hand side does not grow).",
+)
+
+register(
+    "C03",
+    level="proof",
+    streams=["fifo", "steps", "demand", "arrival", "wcet"],
+    falsifier=fals_analyses.falsify_C03,
+    explanation="busy-window proof over all discrete-time FIFO schedules (valid, work conserving, earliest release first, arbitrary ties) of all job sets whose per-task release sequences are admissible and whose execution times respect the cost models: every job completes within R; composed from the schedule-level theorem (Finset counting argument), C06 (what Ok(R) means), C10 (window counts) and C14 (run costs).",
+)
+
+
+register(
+    "C01",
+    level="proof",
+    streams=["fp", "steps", "demand", "fixed_point"],
+    falsifier=fals_analyses.falsify_C01,
+    partial=["task priorities are assumed distinct (the job-level order must be transitive); arrival models outside the C11 findings; NP/LP variants use a scalar WCET as in the crate's API"],
+    explanation="abstract busy-window theorem for job-level fixed-priority scheduling with non-preemptable states (reach_rt, run_to_completion, blocked_bound) instantiated for the four FP analyses: offset < L, blocking by at most one lower-priority segment, higher-priority and own earlier workload bounded by the RBFs, run-to-completion threshold; composed with C06 (meaning of Ok(R)).",
 )
 
 
